@@ -161,36 +161,37 @@ def extra(ctx, tier, seed):
     # names 0..10^6
     step = 62501
     chunks = [(lo, min(N_INDEX + 1, lo + step)) for lo in range(0, N_INDEX + 1, step)]
-    with mp.get_context("fork").Pool(min(jobs, 16)) as pool:
-        res = pool.map(_names_chunk, chunks)
-        n_names = sum(r[0] for r in res)
-        for _, bad in res:
-            for i, got, exp in bad[:1]:
-                ctx.record("int2name-enum", dict(kind="index", i=i), "int2name(%d) = %r, independent enumeration gives %r" % (i, got, exp))
-                ctx.buckets["int2name-enum"]["noshrink"] = True
-        # 3-digit codes
-        n3 = 0
-        digs = "0123456789abcdefABCDEF"
-        for pre in ("", "#"):
-            for t in itertools.product(digs, repeat=3):
-                code = pre + "".join(t)
-                n3 += 1
-                try:
-                    check_color(code)
-                except Violation as e:
-                    ctx.record(e.bucket + "-3digit", dict(kind="color", code=code), e.msg)
-                    ctx.buckets[e.bucket + "-3digit"]["noshrink"] = True
-        # 6-digit lower-case codes
-        stride = 1 if tier == "thorough" else 257
-        total = 16 ** 6
-        per = total // 64
-        cchunks = [("six", lo + (-lo) % stride if stride > 1 else lo, min(total, lo + per), stride) for lo in range(0, total, per)]
-        res = pool.map(_colors_chunk, cchunks)
-        n6 = sum(r[0] for r in res)
-        for _, bad in res:
-            for code, bucket, msg in bad[:1]:
-                ctx.record(bucket + "-6digit", dict(kind="color", code=code), msg)
-                ctx.buckets[bucket + "-6digit"]["noshrink"] = True
+    from vlib.core import pool_map
+
+    res = pool_map(_names_chunk, chunks)
+    n_names = sum(r[0] for r in res)
+    for _, bad in res:
+        for i, got, exp in bad[:1]:
+            ctx.record("int2name-enum", dict(kind="index", i=i), "int2name(%d) = %r, independent enumeration gives %r" % (i, got, exp))
+            ctx.buckets["int2name-enum"]["noshrink"] = True
+    # 3-digit codes
+    n3 = 0
+    digs = "0123456789abcdefABCDEF"
+    for pre in ("", "#"):
+        for t in itertools.product(digs, repeat=3):
+            code = pre + "".join(t)
+            n3 += 1
+            try:
+                check_color(code)
+            except Violation as e:
+                ctx.record(e.bucket + "-3digit", dict(kind="color", code=code), e.msg)
+                ctx.buckets[e.bucket + "-3digit"]["noshrink"] = True
+    # 6-digit lower-case codes
+    stride = 1 if tier == "thorough" else 257
+    total = 16 ** 6
+    per = total // 64
+    cchunks = [("six", lo + (-lo) % stride if stride > 1 else lo, min(total, lo + per), stride) for lo in range(0, total, per)]
+    res = pool_map(_colors_chunk, cchunks)
+    n6 = sum(r[0] for r in res)
+    for _, bad in res:
+        for code, bucket, msg in bad[:1]:
+            ctx.record(bucket + "-6digit", dict(kind="color", code=code), msg)
+            ctx.buckets[bucket + "-6digit"]["noshrink"] = True
     ctx.evaluations += n_names + n3 + n6
     ctx.hist["enum:index"] = n_names
     ctx.hist["enum:index>=26 (carry)"] = n_names - 26
